@@ -51,7 +51,10 @@ QUICK_N = 300
 THOROUGH_N = 3000
 SHARD = 60
 DRIVER_TIMEOUT = 600
-RULE = ("scripts of 4-26 operations over unique task ids: Add (bulk maxTasks 1-4, or chunk maxChunkSize 5-20 with task "
+RULE = ("executors' users, every run: 6 sqlx.BulkInserter scripts (Insert n / Tick / Flush and FORCED overlaps: an Exec is "
+        "held while a second 1000-row batch is cut off and queued and more rows arrive; recording SqlConn; 1000-4000 rows "
+        "each) and 24 stat.Metrics scripts (Add / AddDrop / Tick / Flush, gated concurrent adders, Execute held while tasks "
+        "arrive; tap in front of the container + report writer), x4 in the thorough tier; then scripts of 4-26 operations over unique task ids: Add (bulk maxTasks 1-4, or chunk maxChunkSize 5-20 with task "
         "sizes 0-12), Tick (offered to the live flusher's ticker, driver waits until the flusher is parked again), "
         "Advance n intervals of the virtual clock (n in 1,5,9,10,11,12,25), Flush, Wait, RaceTick (an Add parked "
         "inside its critical section while the flusher takes a tick), idle-quit macros (advance 11, tick, tick); "
@@ -61,7 +64,9 @@ RULE = ("scripts of 4-26 operations over unique task ids: Add (bulk maxTasks 1-4
         "directly after Add); thorough tier adds every script of <= 5 operations over {add, tick, flush, advance 11} "
         "(<= 4 tasks, <= 3 ticks) for maxTasks 1 and 2 and runs the driver under the race detector. non-trivial = at least 3 tasks, at least 2 batches and (a flusher quit, or a "
         "concurrent phase, or both a threshold batch and a tick/flush batch); distinct = distinct canonical case JSON")
-TRUSTED = ["driver-owned timex.Ticker injected through PeriodicalExecutor.newTicker; Chan()/Stop() and a delegating "
+TRUSTED = ["lib/executors/verif_hooks.go (tag verif: ticker factory / container wrapper / pending counters of a "
+           "PeriodicalExecutor for the drivers of sqlx.BulkInserter and stat.Metrics) and internal/verifexec (settle machinery)",
+           "driver-owned timex.Ticker injected through PeriodicalExecutor.newTicker; Chan()/Stop() and a delegating "
            "TaskContainer wrapper are the settle hooks (no sleeps on the success path)",
            "lib/timex virtual clock (VerifSetNow/VerifAdvance)",
            "Go runtime: sync.Mutex, sync.WaitGroup, channels (modelled as in DESIGN section 3), scheduler fairness"]
@@ -263,6 +268,8 @@ def _stat_case(rng):
             ops.append({"op": "tick"})
         elif x < 0.8:
             ops.append({"op": "flush"})
+        elif x < 0.9:
+            ops.append({"op": "overlap", "via": rng.choice(["tick", "flush"]), "n": rng.randint(1, 6)})
         else:
             threads = [[simple() for _ in range(rng.randint(1, 3))] for _ in range(rng.randint(1, 3))]
             if rng.random() < 0.5:
@@ -333,6 +340,8 @@ TAIL = "%s false 0%%nat [] None"     # c_model c_stat c_drops c_reports c_big
 
 
 def _encode_sqlx(case, obs):
+    for b in obs["batches"]:
+        b["ids"] = b["ids"] or []
     ops, nxt = [], 1
     for o in case["ops"]:
         if o["op"] == "insert":
@@ -364,7 +373,7 @@ def _encode_stat(case, obs):
     ops, nxt, nd = [], 1, 0
     sizes = []
     for o in _walk(case["ops"]):
-        if o["op"] == "add":
+        if o["op"] in ("add", "overlap"):
             nxt += o["n"]
     sizes = [cpair(cnat(i), cZ(i)) for i in range(1, nxt)]
     nxt = 1
@@ -382,6 +391,11 @@ def _encode_stat(case, obs):
                 ops.append("STick")
             elif o["op"] == "flush":
                 ops.append("SFlush")
+            elif o["op"] == "overlap":
+                ops.append("STick" if o["via"] == "tick" else "SFlush")
+                for _ in range(o["n"]):
+                    ops.append("SAdd %s" % cnat(nxt))
+                    nxt += 1
     adds = ["mkadd %s %s %s" % (cnat(a["id"]), cnat(a["call"]), cnat(a["ret"])) for a in obs["adds"]]
     calls = ["mkcall false %s %s" % (cnat(k["call"]), cnat(k["ret"])) for k in obs["calls"]]
     ticks = ["mktick %s %s %s" % (cnat(t["seq"]), cbool(t["delivered"]), cnat(t["done"])) for t in obs["ticks"]]
